@@ -649,7 +649,8 @@ class SxGate(Gate):
         """
         Return the inverse operator.
         """
-        return self
+        # Sx = Rx(pi/2) is not an involution
+        return RxGate(-0.5*np.pi, self.qubit)
     
     def on(self, qubit: Qubit):
         """
@@ -1618,7 +1619,10 @@ class PhaseFactorGate(Gate):
         """
         Return the inverse operator.
         """
-        return PhaseFactorGate(-self.phi, self.nwires)
+        invgate = PhaseFactorGate(-self.phi, self.nwires)
+        if self.prtcl:
+            invgate.on(self.prtcl)
+        return invgate
 
     def on(self, *args):
         """
@@ -2562,7 +2566,11 @@ class ISwapGate(Gate):
         """
         Return the inverse operator.
         """
-        return self
+        # iSWAP is not an involution
+        invgate = GeneralGate(self.as_matrix().conj().T, 2)
+        if self.q1 and self.q2:
+            invgate.on(self.q1, self.q2)
+        return invgate
     
     def on(self, q1: Qubit, q2: Qubit):
         """
@@ -3138,7 +3146,10 @@ class GeneralGate(Gate):
         """
         Return the inverse operator.
         """
-        return GeneralGate(self.mat.conj().T, self.nwires)
+        invgate = GeneralGate(self.mat.conj().T, self.nwires)
+        if self.prtcl:
+            invgate.on(self.prtcl)
+        return invgate
 
     def on(self, *args):
         """
